@@ -124,6 +124,12 @@ pub broadcast axiom fn axiom_rsync_uri_key_model()
 
 // SHA-256 of a byte string (as an rrdp::Hash value).
 pub uninterp spec fn sha256(content: Seq<u8>) -> RrdpHash;
+impl RrdpHash {
+    // rpki::rrdp::Hash::from_data: the SHA-256 of the bytes
+    #[verifier::external_body]
+    pub fn from_data(data: &[u8]) -> (r: RrdpHash) ensures r == sha256(data@) { unimplemented!() }
+    #[verifier::external_body] pub fn as_slice(&self) -> (r: &[u8]) { unimplemented!() }
+}
 
 // ---- the local archive of one repository: a map from URI to content plus a state record.
 // ASSUMED contracts: utils::archive::Archive behaves as a map (C26) and the thin wrappers
